@@ -451,6 +451,9 @@ def check_seq(pid, tier, seed):
         plan = [(200, 800000)] * 8 + [(600, 80000)] * 6 + [(1500, 15000)] * 2
     if pid == "C10":
         plan = [(s, max(1, c // 3)) for s, c in plan]
+    if pid == "C02" and tier != "quick":
+        # a scan history costs ~2.5x a point history: keep the thorough tier near one hour on 16 cores
+        plan = [(s, max(1, c * 3 // 8)) for s, c in plan]
     if pid == "C08":
         plan = [(60, 3000)] * 12 + [(150, 300)] * 4 if tier == "quick" else [(60, 60000)] * 10 + [(150, 6000)] * 6
     cmds = []
